@@ -94,12 +94,16 @@ func c17Msg(cfg c17Cfg, variant, k, step int) []byte {
 	switch k % 3 {
 	case 0:
 		if cfg.sysex {
-			n := 1024
+			// lengths up to what the listener's buffer takes, with the powers of two and their neighbours among them
+			n := []int{1024, 2, 3, 65, 129, 257, 513, 1023, 64, 128, 256, 512, 33, 1000}[(k*5+step)%14]
 			switch {
 			case cfg.buf == 16:
-				n = 16
+				n = []int{16, 2, 9, 15}[(k+step)%4]
 			case cfg.buf == 4096:
 				n = 1025 + (k*577+step*131)%3000
+				if (k+step)%3 == 0 {
+					n = []int{1025, 2049, 4096, 4095, 2048, 257}[(k*7+step)%6]
+				}
 			}
 			m := make([]byte, n)
 			m[0], m[n-1] = 0xF0, 0xF7
